@@ -112,6 +112,7 @@ class PathCtx:
         self.solver = explorer.solver
         self.nfresh = 0
         self.inputs = {}        # name -> z3 term (named symbolic inputs, used for models)
+        self.integer_inputs = set()   # names of Real-sorted inputs that stand for integers (witnesses refined to integers)
         self.trace = []         # free-form records made by stubs (fs ops, writes ...)
         self.notes = []
         self.cexs = []
@@ -130,9 +131,14 @@ class PathCtx:
             self.solver.add(t <= hi)
         return SInt(t)
 
-    def real(self, name, lo=None, hi=None):
+    def real(self, name, lo=None, hi=None, integer_valued=False):
+        """`integer_valued`: the input stands for an integer (e.g. an int16 word) but is given the Real sort because mixed
+        Int/Real queries are much slower; obligations are then proved over the reals (a stronger statement) and
+        counterexamples are refined to integer witnesses before replay"""
         t = z3.Real(name)
         self.inputs[name] = t
+        if integer_valued:
+            self.integer_inputs.add(name)
         if lo is not None:
             self.solver.add(t >= _rv(lo))
         if hi is not None:
@@ -255,13 +261,13 @@ class PathCtx:
             return True
         m = self.solver.model()
         # prefer a witness whose real inputs are exactly representable as floats (multiples of 1/64): replays run in IEEE
-        reals = [t for t in self.inputs.values() if z3.is_real(t)]
+        reals = [(k, t) for k, t in self.inputs.items() if z3.is_real(t)]
         if reals and len(reals) <= 64:
             self.solver.push()
             try:
-                self.solver.set("timeout", 5000)
-                for i, t in enumerate(reals):
-                    self.solver.add(t * 64 == z3.ToReal(z3.Int(f"nice!{i}")))
+                self.solver.set("timeout", 20000 if self.integer_inputs else 5000)
+                for i, (k, t) in enumerate(reals):
+                    self.solver.add(t * (1 if k in self.integer_inputs else 64) == z3.ToReal(z3.Int(f"nice!{i}")))
                 if self.solver.check(neg) == z3.sat:
                     m = self.solver.model()
             finally:
